@@ -155,6 +155,9 @@ def run_search(repo: Repo, res: Result) -> None:
         # the model must have seen what the role needs, otherwise nothing above was checked
         if m.role in ("explicit", "other") and not rec:
             res.undecide("C01.S", repo.key(fi, m.neighbour_loop if isinstance(m.neighbour_loop, ast.stmt) else stmt_of(m.neighbour_loop)), f"no result is recorded inside the iteration over `{norm(m.neighbour_call)}` (results built in a later pass are not modelled)", where(fi, m.neighbour_call))
+        for e in pushes:
+            if not e.in_neighbour_loop:
+                res.undecide("C01.S", repo.key(fi, stmt_of(e.call)) + " [push]", f"`{e.what}` is pushed outside the neighbour iteration and the model cannot trace its elements back to classified neighbours", where(fi, e.call))
         if m.role in ("explicit", "submodules") and not pushes:
             res.undecide("C01.S", repo.key(fi, m.loop), "the search never extends its worklist: descendants of the start module are not reached by a push the model recognises", where(fi, m.loop))
         if m.role == "explicit":
